@@ -201,7 +201,7 @@ structure NodeFull (h : List Sys) (c0 n : Nat) (st : NState) : Prop where
   pastL : PastLog h n (FL h c0 st)
   pastS : PastLog h n (FS h c0 st)
 
-theorem NodeFull.of (H : Hyp2 cfg c0 h) {st : NState} {F G : LLog}
+theorem NodeFull.of (H : Hyp2w cfg c0 h) {st : NState} {F G : LLog}
     (h1 : Full (HistChain h) c0 st.raft.raftLog.abs F)
     (h2 : Full (HistChain h) c0 (storeLog st.raft.raftLog.store) G)
     {n : Nat} (h5 : PastLog h n F) (h6 : PastLog h n G)
@@ -299,7 +299,7 @@ theorem snapshotCore_ok {n : Nat} {st : NState} (I : NodeFull h c0 n st) (hw : s
             exact ⟨e, I.sto.entry hent, rfl⟩
     · cases hsn
 
-theorem ghost_inv (H : Hyp2 cfg c0 h) : ∀ (n : Nat) (s : Sys), h[n]? = some s →
+theorem ghost_inv (H : Hyp2w cfg c0 h) : ∀ (n : Nat) (s : Sys), h[n]? = some s →
     GhostInv h c0 n s := by
   refine hist_induct h (fun n s => GhostInv h c0 n s) ?_ ?_
   · intro s h0
